@@ -60,7 +60,7 @@ claim("C11",
       "DESIGN.md §8 C11")
 claim("C12",
       "Lean 4 invariant proof over arbitrary histories: WT backing = logical contents and resident = backing; WB backing lags only on resident blocks, eviction writes back; correspondence with dumps after every op",
-      "7 theorems (Props/C12.lean): wt_backing_current, wt_resident_backed, wt_state, wb_backing_lags_only_resident, eviction_preserves, eviction_writes_back, wb_write_not_lost.",
+      "21 theorems. Props/C12.lean (7): wt_backing_current, wt_resident_backed, wt_state, wb_backing_lags_only_resident, eviction_preserves, eviction_writes_back, wb_write_not_lost. Props/C12Prog.lean (14), the user-visible clause and the program level: wt_backing_is_flat_memory (under write-through the backing store EQUALS the flat reference memory as a structure after any history), wt_table_current (hence the memory table is the flat run's), wb_table_row_current / wb_flat_row_covered (the table lags only on resident blocks: every row outside a resident block is current, every flat row is listed or resident), the proved negation of the converse inclusion (written-back blocks list words the program never wrote) and of order equality under write-back, and the same statements along single-cycle runs, the simulation loop and at the end of five-stage runs (table_rel_init, step_preserves_table_rel, wt_table_current_along_run, table_lags_only_resident_along_run, table_along_sim, table_five_stage).",
       TB + "blkBits <= 12 (F6).",
       "DESIGN.md §8 C12")
 claim("C13",
